@@ -29,7 +29,7 @@ ENGINES = [
 # id -> dict(level, design, text, note, technique)
 CHECKS = {
     "C01": dict(level="model_checking", design="4/C01",
-                text="Every batch of the stated small-scope domain (all fit/no-fit boundary lengths x message types x batch sizes 1..3 x 21 small (min,max) contexts and batch sizes 1..2 x 9 mid-size/realistic contexts, each also on an encoder that already made one of nine kinds of earlier call (seven completed ones, two aborted by an exception from the packet source), typed prototypes as singles/pairs/triples x 5 contexts x 3 encode overloads, header-field sweeps, 65535-byte extremes alone, after a type change and after a packet of the same type, frames larger than the largest message) is encoded by a real Encoder and decoded by a fresh real Decoder; the decoded packets are compared field by field with the inputs by harness code. Exhaustive within the bounds, no sampling.",
+                text="Every batch of the stated small-scope domain (all fit/no-fit boundary lengths x message types x batch sizes 1..3 x 21 small (min,max) contexts and batch sizes 1..2 x 9 mid-size/realistic contexts, each also on an encoder that already made one of ten kinds of earlier call (seven completed ones, two aborted by an exception from the packet source, one with an empty batch), typed prototypes as singles/pairs/triples x 5 contexts x 3 encode overloads, header-field sweeps, 65535-byte extremes alone, after a type change and after a packet of the same type, frames larger than the largest message) is encoded by a real Encoder and decoded by a fresh real Decoder; the decoded packets are compared field by field with the inputs by harness code. Exhaustive within the bounds, no sampling.",
                 note="Bounds: lengths around each boundary, one content pattern per packet; compares through public getters only; oracle code shares nothing with the library.",
                 technique="bounded exhaustive enumeration of executions of the real encoder+decoder (small-scope), independent field-by-field oracle"),
     "C07": dict(level="model_checking", design="4/C07",
@@ -45,7 +45,7 @@ CHECKS = {
                 note="Alphabet: 2 device ids, 2 stream ids, restart, 10 (batch,context,version) triples chosen to differ in every piece of carried encoder state, two of them from another one in the version only; packets carry junk ids of their own, a zero-length payload, message type 0 and payload type byte 0 occur.",
                 technique="explicit-state exploration of all operation sequences up to a depth on the real object, lock-step with a reference model"),
     "C10": dict(level="model_checking", design="4/C10",
-                text="For every history up to depth 4 (quick) / 6 (thorough) and every final (batch,context,version) of a 15-element set the frames of the used real Encoder are compared byte for byte (modulo a constant counter offset) with those of a fresh Encoder with the same ids; ten further histories emit 65530 / 65533 / 32765 frames in one call so that every final straddles the counter wrap or the sign boundary, twelve contain an encode call aborted by an exception from the caller's packet source, and 54 families contain an encode call aborted at its n-th allocation for EVERY n (allocation-fault injection), alone and before / after another call; runs under ASan/UBSan in a fork sandbox so crashes caused by leftover state are outcomes.",
+                text="For every history up to depth 4 (quick) / 6 (thorough) and every final (batch,context,version) of a 15-element set the frames of the used real Encoder are compared byte for byte (modulo a constant counter offset) with those of a fresh Encoder with the same ids; ten further histories emit 65530 / 65533 / 32765 frames in one call so that every final straddles the counter wrap or the sign boundary, twelve contain an encode call aborted by an exception from the caller's packet source, and 54 families contain an encode call aborted at its n-th allocation for EVERY n (allocation-fault injection), alone and before / after another call, and 13 contain a call on an EMPTY batch; runs under ASan/UBSan in a fork sandbox so crashes caused by leftover state are outcomes.",
                 note="Purely differential: no model involved.",
                 technique="explicit-state exploration of all operation sequences up to a depth, differential oracle (used vs fresh object)"),
     "C05": dict(level="model_checking", design="4/C05",
@@ -57,7 +57,7 @@ CHECKS = {
                 note="'Random beyond the bound' of the quantifier text is deliberately not done (sampling is a different family); the completed bound is reported.",
                 technique="exhaustive fault-sequence enumeration up to a bound on the real decoder"),
     "C17": dict(level="model_checking", design="4/C17",
-                text="89-symbol state-relative frame alphabet over 4 endpoints (incl. zero-length last segments with a plausible-looking trail, header-plus-zero-bytes frames, truncated TECMP-like buffers, continuation segments that fit a default-constructed reassembly entry): unmerged tree of copied real Decoders (depth 3 quick / 4 thorough; depth 5 / 6 over a sharp 20-symbol sub-alphabet) and BFS (depth 9 / 11) merged on (model state, dump of the decoder's pending table); after every transition the set of endpoints with pending data must equal the set of open messages and buffered bytes must not exceed header + declared segment bytes received; plus the fan-out and long-gap rounds of C05 and messages whose segments add up to more than 65535 bytes (15 size lists x 4 endpoints: the last segment releases the buffer all the same).",
+                text="98-symbol state-relative frame alphabet over 4 endpoints (incl. zero-length last segments with a plausible-looking trail, header-plus-zero-bytes frames, truncated TECMP-like buffers, continuation segments that fit a default-constructed reassembly entry, an intermediary segment repeated verbatim, well-formed status messages whose content changes: uptime high / low): unmerged tree of copied real Decoders (depth 3 quick / 4 thorough; depth 5 / 6 over a sharp 24-symbol sub-alphabet) and BFS (depth 9 / 11) merged on (model state, dump of the decoder's pending table); after every transition the set of endpoints with pending data must equal the set of open messages and buffered bytes must not exceed header + declared segment bytes received; plus the fan-out and long-gap rounds of C05 and messages whose segments add up to more than 65535 bytes (15 size lists x 4 endpoints: the last segment releases the buffer all the same).",
                 note="Uses the guarded read-only hook Decoder::verifPending(); a header-only frame is modelled as carrying nothing.",
                 technique="explicit-state model checking (tree + BFS with state merging) of the real decoder against a reference model; invariant checked in every state"),
     "C18": dict(level="model_checking", design="4/C18",
@@ -65,7 +65,7 @@ CHECKS = {
                 note="Purely differential; counts as in C05 + C17.",
                 technique="explicit-state exploration with a differential (projection) oracle on real decoder objects"),
     "C02": dict(level="model_checking", design="4/C02",
-                text="Every way the decoders' control flow can be steered is enumerated: ~140 well-formed CMP and TECMP seed frames x every truncation x every single-byte and adjacent-byte-pair corruption over boundary value sets x extensions up to 64 KiB x 4 decoder pre-states, a TECMP sweep over all 256 message types x data types x payload lengths x length bytes, all ordered pairs (thorough: triples) of a sub-corpus on one decoder, all segment-size sequences F(a) [I(b)] L(c) over a size set whose totals cross 64 KiB, the typed-payload generator of C03 as the last message of an exact-size frame and split over two segments, and histories in which one decode call is aborted by the failure of its n-th allocation (every n, every buffer) and the buffer is presented again (reassembly F [I] L [U U] over sizes {0,1,17,1000}; typed payloads of the 7 classes unsegmented and split). Each execution runs the real code under ASan/UBSan in a fork sandbox with a watchdog; input unchanged, <= len/12 packets, packets non-null with payload, and a digest of every getter, byte and typed accessor must be unchanged after the input is freed, ten more frames are decoded and the decoder is destroyed.",
+                text="Every way the decoders' control flow can be steered is enumerated: ~140 well-formed CMP and TECMP seed frames x every truncation x every single-byte and adjacent-byte-pair corruption over boundary value sets x extensions up to 64 KiB x 4 decoder pre-states, a TECMP sweep over all 256 message types x data types x payload lengths x length bytes, all ordered pairs (thorough: triples) of a sub-corpus on one decoder, all segment-size sequences F(a) [I(b)] L(c) over a size set whose totals cross 64 KiB, the typed-payload generator of C03 as the last message of an exact-size frame and split over two segments, and very long buffers (N aggregated well-formed messages behind one frame header, N up to 300000, thorough 2000000), and histories in which one decode call is aborted by the failure of its n-th allocation (every n, every buffer) and the buffer is presented again (reassembly F [I] L [U U] over sizes {0,1,17,1000}; typed payloads of the 7 classes unsegmented and split). Each execution runs the real code under ASan/UBSan in a fork sandbox with a watchdog; input unchanged, <= len/12 packets, packets non-null with payload, and a digest of every getter, byte and typed accessor must be unchanged after the input is freed, ten more frames are decoded and the decoder is destroyed.",
                 note="Not all byte strings: exhaustive over the control-relevant field space of the seeds (the decoder only copies other bytes). UBSan alignment/vptr/nonnull-attribute sub-checks are off on purpose.",
                 technique="bounded exhaustive enumeration of inputs x decoder histories executed on the real code under sanitizers (fork sandbox, watchdog)"),
     "C03": dict(level="model_checking", design="4/C03",
@@ -77,27 +77,27 @@ CHECKS = {
                 note="Expected getter values are the builder's field values, so symmetric endianness/offset errors do not cancel.",
                 technique="bounded exhaustive enumeration of inputs x decoder pre-states against an independent reference parser"),
     "C15": dict(level="model_checking", design="4/C15",
-                text="TECMP frames from an independent builder: CAN/CAN-FD data length 0..64 (and 7 consistent lengths above 64) x arbitration ids x CRC trailers, LIN x all 256 pids, capture-module status x serials x version bytes (short payloads x announced vendor lengths), bus status with 0..40 entries, each kind with inner lengths inconsistent with the buffer, every single bit of the data-flags and device-flags words alone, supported data messages followed by further entries (well-formed, lying, empty entry headers; header-like and zero trails: the first entry's packet is judged), and all 256 message types x data types x payload lengths x length bytes (thorough: all 65536 data types); decoded packets are compared with an independent conversion, unsupported/inconsistent messages must yield nothing.",
+                text="TECMP frames from an independent builder: CAN/CAN-FD data length 0..64 (and 7 consistent lengths above 64) x arbitration ids x CRC trailers, LIN x all 256 pids, capture-module status x serials x version bytes (short payloads x announced vendor lengths), bus status with 0..40 entries (distinct, and repeating: adjacent identical, first = last, all identical, all zero), each kind with inner lengths inconsistent with the buffer, every single bit of the data-flags and device-flags words alone, supported data messages followed by further entries (well-formed, lying, empty entry headers; header-like and zero trails: the first entry's packet is judged), and all 256 message types x data types x payload lengths x length bytes (thorough: all 65536 data types); decoded packets are compared with an independent conversion, unsupported/inconsistent messages must yield nothing.",
                 note="CAN CRC values, frames with bytes after the declared payload, partial bus-status entries and status frames with data type FF00 are outside what the property fixes and are only checked for memory safety (C02).",
                 technique="bounded exhaustive enumeration of inputs against an independent reference conversion"),
     "C11": dict(level="model_checking", design="4/C11",
-                text="Table-driven: 24 classes, ~235 setter/getter pairs; for every field ALL values (<= 16 bits) or single bits + byte lanes + extremes + values relative to the current state (wider), from default / all-zero / all-ones / counting prior object states (payload classes also with data bytes): after set, get returns the value, every non-overlapping field's getter is unchanged and raw bytes are unchanged outside the bits an independent layout table assigns to the field; booleans additionally through set/clear sequences, every flag setter with every mask value (incl. multi-bit masks) from every prior flag state, and Packet::setPayload from every prior state (nothing or any of 19 payloads held) x 19 new payloads. Payload classes are exercised both as stand-alone objects and as the object a Packet holds after setPayload (reached through getPayload and a cast); every getter is called on the object before the write.",
+                text="Table-driven: 24 classes, ~235 setter/getter pairs; for every field ALL values (<= 16 bits) or single bits + byte lanes + extremes + values relative to the current state (wider), from default / all-zero / all-ones / counting prior object states (payload classes also with data bytes): after set, get returns the value, every non-overlapping field's getter is unchanged and raw bytes are unchanged outside the bits an independent layout table assigns to the field; booleans additionally through set/clear sequences, every flag setter with every mask value (incl. multi-bit masks) from every prior flag state, and Packet::setPayload from every prior state (nothing or any of 23 payloads held, four of which report bus errors) x 23 new payloads, the header fields compared with what was written. Payload classes are exercised both as stand-alone objects and as the object a Packet holds after setPayload (reached through getPayload and a cast); every getter is called on the object before the write.",
                 note="Wide fields are covered bit-lane-wise, which decides bit-sliced accessors (byte swaps, shifts, masks); the overlap relation (legitimate aliases) is derived from the independent layout table.",
                 technique="bounded exhaustive enumeration class x field x value x prior state on the real objects"),
     "C12": dict(level="model_checking", design="4/C12",
-                text="Same table, independent columns (offset, width, bit position written from the protocol layouts): API writes into default, zero, ones and counting objects must produce the hand-laid-out big-endian image, hand-laid-out images must be read back by the getters from zero/ones/counting backgrounds, reserved bits are zero in default objects, header sizes are the standard ones; Packet serialisers are compared with hand-laid-out images; the length-prefixed sections of the two status payloads are laid out by hand at 22 lengths around the byte / sign boundaries of the prefix and read through the getters; 94 named constants (flag bits, message / payload / data types) are compared with the protocol tables.",
+                text="Same table, independent columns (offset, width, bit position written from the protocol layouts): API writes into default, zero, ones and counting objects must produce the hand-laid-out big-endian image, hand-laid-out images must be read back by the getters from zero/ones/counting backgrounds, reserved bits are zero in default objects, header sizes are the standard ones; Packet serialisers are compared with hand-laid-out images; the length-prefixed sections of the two status payloads are laid out by hand at 22 lengths around the byte / sign boundaries of the prefix and read through the getters; the message-header serialiser with the 23 typed payloads of the value pool (incl. payloads that report bus errors) and the flags written before / after the payload; 94 named constants (flag bits, message / payload / data types) are compared with the protocol tables.",
                 note="The order of the two TECMP temperature bytes could not be cross-checked and is listed as an assumption in the evidence.",
                 technique="bounded exhaustive enumeration class x field x value against an independent layout table"),
     "C13": dict(level="model_checking", design="4/C13",
-                text="Every builder (CAN/CAN-FD all lengths 0..255 x 4 header variants incl. the RTR/RRS bit set first, LIN all lengths 0..255, Ethernet/analog boundary lengths to 65529, capture-module 5^4 string combinations x vendor lengths and each section alone at 17 boundary lengths, interface stream-id counts x vendor lengths) after each kind of prior state (earlier setData with shorter / longer / same-length data or with the same TOTAL size and moved section boundaries, or an object constructed from a raw image with trailing bytes; each with and without every getter being called between the two builder calls; stand-alone objects and objects held inside a Packet); checked: getters, preserved header fields, independent wire image incl. NUL termination and even padding, DLC table, own validity check, real Decoder, raw bytes equal to those of a fresh object with the same final content.",
+                text="Every builder (CAN/CAN-FD all lengths 0..255 x 4 header variants incl. the RTR/RRS bit set first, LIN all lengths 0..255, Ethernet/analog boundary lengths to 65529, capture-module 5^4 string combinations x vendor lengths and each section alone at 17 boundary lengths, interface stream-id counts x vendor lengths) after each kind of prior state (earlier setData with shorter / longer / same-length data or with the same TOTAL size and moved section boundaries, or an object constructed from a raw image with trailing bytes; each with and without every getter being called between the two builder calls; stand-alone objects and objects held inside a Packet; the LIN builder also with the correct classic / enhanced checksum of the data held before; the builder call under test aborted by the failure of its n-th allocation and repeated); checked: getters, preserved header fields, independent wire image incl. NUL termination and even padding, DLC table, own validity check, real Decoder, raw bytes equal to those of a fresh object with the same final content.",
                 note="DLC is only constrained for representable lengths.",
                 technique="bounded exhaustive enumeration of builder inputs x prior object contents with independent layout oracle and fresh-object differential"),
     "C14": dict(level="model_checking", design="4/C14",
-                text="All ordered (source, target) pairs of a 31-packet pool (payload-less, zero-length payloads, equal-looking, one member per single-field difference, typed, decoder-produced, decoder-produced and edited in place into a rejected state) x copy/move construction and assignment, self assignments, all two-assignment sequences, all histories of 3 (thorough 4) value operations (copy-assign / move-assign / swap from every member, self assignments, round trip through a copy-constructed temporary) on every target of a 12-member sharp sub-pool and of 2 (3) operations on the whole pool with the target observed and compared after every step, equality laws on all pairs; the same for 19 Payload and 10 TECMP::Payload objects; observation through all getters under ASan in forked workers.",
+                text="All ordered (source, target) pairs of a 31-packet pool (payload-less, zero-length payloads, equal-looking, one member per single-field difference, typed, decoder-produced, decoder-produced and edited in place into a rejected state) x copy/move construction and assignment, self assignments, all two-assignment sequences, all histories of 3 (thorough 4) value operations (copy-assign / move-assign / swap from every member, self assignments, round trip through a copy-constructed temporary) on every target of a 12-member sharp sub-pool and of 2 (3) operations on the whole pool with the target observed and compared after every step, equality laws on all pairs; copy construction / assignment aborted by the failure of its n-th allocation (every n) and repeated; the same for 23 Payload and 10 TECMP::Payload objects; observation through all getters under ASan in forked workers.",
                 note="Equality must agree with field-by-field comparison only for non-empty payloads (as the property states).",
                 technique="exhaustive enumeration of object pairs x value operations (2-step histories) on the real classes"),
     "C16": dict(level="model_checking", design="4/C16",
-                text="34-operation alphabet over 3 devices x 2 interfaces x 2 message variants (one of them with the header fields a reassembled packet carries; incl. data packets and status messages of other kinds, which must change nothing): unmerged tree of copied real Status objects to depth 4 (quick) / 5 (thorough) and to depth 6 / 8 over a sharp 13-operation sub-alphabet, every prefix judged, plus BFS merged on the full ordered observable state run to its fixpoint (all 109 591 reachable states of the alphabet); after every operation counts, lookups by id and every getter/byte of every stored packet are compared with a latest-message map. The sharp tree also runs with every lookup and getter exercised after EVERY operation of the history; four long histories pass every power of two up to 2^17 updates; update calls aborted by the failure of their n-th allocation (every n) after every history of <= 2 (thorough 3) operations must leave the tracker equal to the map without or with the message, and the repeated update and one more operation are judged.",
+                text="34-operation alphabet over 3 devices x 2 interfaces x 2 message variants (which move timestamps and uptime / counters in opposite directions; one of them with the header fields a reassembled packet carries; incl. data packets and status messages of other kinds, which must change nothing): unmerged tree of copied real Status objects to depth 4 (quick) / 5 (thorough) and to depth 6 / 8 over a sharp 13-operation sub-alphabet, every prefix judged, plus BFS merged on the full ordered observable state run to its fixpoint (all 109 591 reachable states of the alphabet); after every operation counts, lookups by id and every getter/byte of every stored packet are compared with a latest-message map. The sharp tree also runs with every lookup and getter exercised after EVERY operation of the history; four long histories pass every power of two up to 2^17 updates; update calls aborted by the failure of their n-th allocation (every n) after every history of <= 2 (thorough 3) operations must leave the tracker equal to the map without or with the message, and the repeated update and one more operation are judged.",
                 note="Vector order is not constrained; 'random beyond the bound' is not done (the completed bound is reported).",
                 technique="explicit-state model checking (operation-sequence tree + BFS with state merging) of the real object against a reference model"),
     "C20": dict(level="model_checking", design="4/C20",
@@ -105,7 +105,7 @@ CHECKS = {
                 note="Two fill patterns decide dependence on uninitialised content; valgrind decides definedness on the executed paths only. MSan is unusable here without an instrumented libstdc++.",
                 technique="exhaustive enumeration of a workload list x environment answers for uninitialised memory (differential) + definedness monitor on every output"),
     "C19": dict(level="model_checking", design="4/C19",
-                text="Five thread bodies (encoder, decoder, static TECMP decoder, status tracker, builders/values), each on its own objects and parameterised by a thread-unique value, plus a hand-over pair (a decoder's owner goes on decoding while another thread reads, copies, feeds to its own Status / Encoder and destroys the packets that decoder returned earlier; rebuilt before every execution), run as real pthreads under a serialising scheduler; scheduling points are inserted by the compiler (sanitizer coverage). Explored exhaustively: all interleavings at API level for all 15 body pairs, all schedules with <= 1 preemption at function-entry level for all pairs and at basic-block level for same-body pairs, <= 2 preemptions for two same-body pairs (thorough: <= 2 for all pairs, <= 1 at basic-block level for all pairs, 3-thread sets). Per schedule: digests equal the solo run (reference digests from a cold child process), ASan clean, and a confinement monitor over every library load/store reports any granule touched by two threads with a write. A separate free-running ThreadSanitizer pass covers what a serialising scheduler hides from a race detector.",
+                text="Five thread bodies (encoder, decoder, static TECMP decoder, status tracker, builders/values), each on its own objects and parameterised by a thread-unique value, plus a hand-over pair (a decoder's owner goes on decoding while another thread reads, copies, feeds to its own Status / Encoder and destroys the packets that decoder returned earlier; rebuilt before every execution) and a copy family (each thread works on its own copy of one configured prototype encoder / decoder with an open message / status tracker), run as real pthreads under a serialising scheduler; scheduling points are inserted by the compiler (sanitizer coverage). Explored exhaustively: all interleavings at API level for all 15 body pairs, all schedules with <= 1 preemption at function-entry level for all pairs and at basic-block level for same-body pairs, <= 2 preemptions for two same-body pairs (thorough: <= 2 for all pairs, <= 1 at basic-block level for all pairs, 3-thread sets). Per schedule: digests equal the solo run (reference digests from a cold child process), ASan clean, and a confinement monitor over every library load/store reports any granule touched by two threads with a write. A separate free-running ThreadSanitizer pass covers what a serialising scheduler hides from a race detector.",
                 note="Preemption inside uninstrumented libstdc++/libc and weak-memory effects are not modelled; k > 2 at function granularity is not explored.",
                 technique="stateless model checking: preemption-bounded exhaustive schedule exploration of the real code under a controlled scheduler, plus free-running TSan pass"),
 }
